@@ -4,10 +4,15 @@ E4 effect analysis over the resolved call graph from every externally reachable 
 crate (a superset of decoding and encoding): no callee in an I/O, environment, time, thread/sync,
 randomness or reflection class is reachable; the crate has no mutable, interior-mutable or
 thread-local static; no pointer-to-integer exposure."""
+import re
 from rules.common import *
 from effects import classify_external
 
-BAD = ("io", "time", "thread", "random")
+BAD = ("io", "time", "thread", "random", "alloc_addr")
+# iteration over a std hash collection: the order depends on the per-process / per-thread random seed of RandomState
+HASH_ITER = re.compile(r"<std::collections::(HashSet|HashMap)<.*> as std::iter::IntoIterator>::into_iter$|"
+                       r"^std::collections::(HashSet|HashMap)::<.*>::(iter|iter_mut|keys|values|values_mut|into_keys|into_values|drain|retain|extract_if)$|"
+                       r"^std::collections::hash_(map|set)::")
 
 
 def run_config(chk, config):
@@ -80,6 +85,15 @@ def run_config(chk, config):
                         hits.append(("thread-local access", stt.get("ln")))
                     if rv["k"] == "cast" and "ExposeProvenance" in rv["kind"] and "With" not in rv["kind"]:
                         hits.append(("pointer address exposed as integer", stt.get("ln")))
+            t = b["term"]
+            if t["t"] == "call" and "key" in t["func"]:
+                fn_ = t["func"]
+                nm = (fn_.get("resolved") or fn_)["name"]
+                if HASH_ITER.search(nm) or HASH_ITER.search(fn_["name"]):
+                    tys = [fx.ty_str(x) for x in (fn_.get("resolved") or fn_).get("args", []) if isinstance(x, int)]
+                    tys += [fx.ty_str(x) for x in fn_.get("args", []) if isinstance(x, int)]
+                    if not tys or any("RandomState" in x for x in tys) or not any("BuildHasher" in x for x in tys):
+                        hits.append(("iteration over a randomly seeded hash collection (order differs per process/thread)", t.get("ln")))
         for what, ln in hits:
             chk.oblig(False, "ambient | %s | %s" % (f["name"], what), "%s: %s at %s" % (f["name"], what, ln), {"at": ln})
     chk.obligations += 1
